@@ -22,6 +22,7 @@ use core::str::Utf8Error;
 use multiboot2_common::{MaybeDynSized, Tag};
 
 const RSDPV1_LENGTH: usize = 20;
+const RSDPV2_LENGTH: usize = 36;
 
 /// This tag contains a copy of RSDP as defined per ACPI 1.0 specification.
 #[derive(Copy, Clone, Debug, PartialEq, Eq, PartialOrd, Ord, Hash)]
@@ -165,12 +166,15 @@ impl RsdpV2Tag {
     #[must_use]
     pub fn checksum_is_valid(&self) -> bool {
         let bytes = unsafe {
-            slice::from_raw_parts(self as *const _ as *const u8, self.length as usize + 8)
+            slice::from_raw_parts(self as *const _ as *const u8, RSDPV2_LENGTH + 8)
         };
-        bytes[8..]
-            .iter()
-            .fold(0u8, |acc, val| acc.wrapping_add(*val))
-            == 0
+        // The RSDP is embedded in this tag, right after the tag header. A
+        // `length` that exceeds it can't be validated.
+        bytes
+            .get(8..)
+            .and_then(|rsdp| rsdp.get(..self.length as usize))
+            .map(|rsdp| rsdp.iter().fold(0u8, |acc, val| acc.wrapping_add(*val)) == 0)
+            .unwrap_or(false)
     }
 
     /// An OEM-supplied string that identifies the OEM.
